@@ -42,7 +42,8 @@ let () =
       (match run_case table t c bs with
        | None -> Printf.sprintf "FAIL wf=%d" wf
        | Some ((v, rest), re) ->
-         let consumed = List.filteri (fun i _ -> i < List.length bs - List.length rest) bs in
+         let nkeep = List.length bs - List.length rest in
+         let consumed = List.filteri (fun i _ -> i < nkeep) bs in
          let d = first_diff 0 consumed re in
          let b = Buffer.create 4096 in
          dump b v;
